@@ -215,7 +215,7 @@ def run(pid, tier):
     cfg = "MC_derive.cfg" if tier == "quick" else "MC_derive_thorough.cfg"
     r = vlib.run_tlc("MC_derive", cfg, "C16-mc", workers=8, timeout=1800, xmx="8g")
     if not r.ok:
-        log(r.error_text)
+        log(r.error_text[:1500])
         path = vlib.save_replay(pid, "mc", {"kind": "tlc-counterexample", "module": "MC_derive", "cfg": cfg, "output": r.error_text})
         vlib.write_evidence(pid, tier, "model_checking", {"evaluations": 1, "distinct_nontrivial": 0, "explanation": "TLC error", "samples": [r.error_text[:300]]}, [], time.time() - t0, 1)
         return vlib.finish(pid, [(path, "TLC reports an error on DDerive")])
